@@ -224,6 +224,7 @@ func vfRaceScenario(name string, bound [2]int, withP2P bool, race func(g *vfGW, 
 			g := vfBuildWorld(vfBootOpts{}, withP2P)
 			obs := &vfRaceObs{}
 			var track []vfReqTrack
+			vsched.SetValue("store-yield", true) // store calls are scheduling points during the race
 			vsched.Zone(true)
 			race(g, &track)
 			vfSettle(g)
@@ -337,6 +338,13 @@ func vfC14Scenarios() []vfScenario {
 			}
 			code, _ := g.cl["mb"].Req(`{"sub":{"id":"$ID","topic":"%s"}}`, g.grp)
 			deleted := g.w.db.Topic(g.grp) == nil
+			if deleted {
+				// nothing may have been written to the topic after it was deleted (C03: a topic which is
+				// being deleted accepts no publish)
+				if n := len(g.w.db.Messages(g.grp)); n > 0 {
+					obs.Violations = append(obs.Violations, vfXViolation{Key: "C03:publish-accepted-during-deletion", What: fmt.Sprintf("the topic was hard-deleted, yet %d message row(s) of it exist: a publish was accepted while the deletion was in progress", n)})
+				}
+			}
 			if deleted && code < 400 {
 				obs.Violations = append(obs.Violations, vfXViolation{Key: "C14:request-to-deleted-topic-accepted", What: fmt.Sprintf("{sub} to the deleted topic answered %d", code)})
 			}
